@@ -29,6 +29,12 @@ def gen_request(rng, sid, tier):
     path = b"/" + {"fcgi": b"fcgi", "scgi": b"scgi", "px": b"px"}[kind] + rng.choice([b"/app", b"/app/extra/info", b"/a%20b/c", b"/x.php/p", b"/a%2Bc"])
     query = rng.choice([b"", b"x=1&y=%20", b"a=b=c&&", b"q=%C3%A9+z"])
     target = path + b"?" + (query + b"&" if query else b"") + b"id=%d" % sid
+    fullq = (query + b"&" if query else b"") + b"id=%d" % sid
+    if rng.random() < 0.25:
+        # short and empty queries (records are matched to requests by position, the id token is only a convenience)
+        fullq = rng.choice([None, b"", b"a", b"=", b"&", b"a=", b"%3F", b"??"])
+        target = path + (b"?" + fullq if fullq is not None else b"")
+        fullq = fullq or b""
     hdrs = []
     for _ in range(rng.choice([0, 1, 3, 6])):
         k = rng.choice(NAMES)
@@ -40,7 +46,7 @@ def gen_request(rng, sid, tier):
     off = rng.randrange(4096); body = PAT[off:off + n]
     framing = "none" if method in (b"GET", b"DELETE") else rng.choice(["cl", "cl", "chunked"])
     seg = rng.choice(["whole", "whole", "pieces", "small-chunks-first"])
-    rq = dict(kind=kind, sid=sid, method=method, target=target, path=path, query=(query + b"&" if query else b"") + b"id=%d" % sid, hdrs=hdrs, body=body, framing=framing, seg=seg)
+    rq = dict(kind=kind, sid=sid, method=method, target=target, path=path, query=fullq, hdrs=hdrs, body=body, framing=framing, seg=seg)
     # every sixth CGI-type request or so travels over HTTP/2 instead (bodies that fit the initial flow-control window; HTTP/2 has no chunked coding)
     rq["h2"] = kind in ("fcgi", "scgi") and framing in ("none", "cl") and len(body) <= 60000 and rng.random() < 0.18
     return rq
